@@ -103,6 +103,10 @@ const VOLUMES: [Option<&str>; 34] = [None, Some(""), Some("0"), Some("1"), Some(
 
 const EXTS: [&str; 17] = ["2mg", "2img", "dsk", "d13", "do", "nib", "nb2", "po", "woz", "imd", "td0", "img", "ima", "DSK", "Woz", "xyz", ""];
 
+/// What each `--kind` value means, in data bytes (tracks x sides x sectors x sector size; Apple 3.5 inch in 512 byte
+/// blocks): written down from the documentation of the media, deliberately not taken from `img/names.rs`.
+const SPEC_CAPACITY: [(&str, usize); 23] = [("8in", 256256), ("8in-trs80", 625920), ("8in-nabu", 1018368), ("5.25in", 143360), ("5.25in-ibm-ssdd8", 163840), ("5.25in-ibm-ssdd9", 184320), ("5.25in-ibm-dsdd8", 327680), ("5.25in-ibm-dsdd9", 368640), ("5.25in-ibm-ssqd", 327680), ("5.25in-ibm-dsqd", 655360), ("5.25in-ibm-dshd", 1228800), ("5.25in-kayii", 204800), ("5.25in-kay4", 409600), ("5.25in-osb-sd", 102400), ("5.25in-osb-dd", 204800), ("3.5in", 819200), ("3.5in-ss", 409600), ("3.5in-ds", 819200), ("3.5in-ibm-720", 737280), ("3.5in-ibm-1440", 1474560), ("3.5in-ibm-2880", 2949120), ("3in-amstrad", 184320), ("hdmax", 33553920)];
+
 #[derive(Clone)]
 struct Cfg { os: String, kind: String, typ: String, wrap: Option<String>, boot: bool, vol: Option<String>, ext: String, dest_exists: bool }
 
@@ -183,6 +187,13 @@ fn check_volume(path: &std::path::Path, c: &Cfg, out: &mut Emit) -> Reload {
         let answer = format!("type={} fs={} cap={} bs={} total={} free={}", type_name(&typ), fs_short(&st.fs_name), cap, st.block_size, total, st.free_blocks);
         if typ != c2.typ { probs.push(format!("reload-type-differs ({})", typ)); }
         if fs_short(&st.fs_name) != fs_of_os(&c2.os) { probs.push(format!("reload-fs-differs ({})", st.fs_name)); }
+        // the capacity the `--kind` value stands for (DOS 3.2 uses the 13 sector form of the 5.25 inch disk; a WOZ reports
+        // the 16 sector figure for it)
+        let spec = SPEC_CAPACITY.iter().find(|x| x.0 == c2.kind).map(|x| x.1);
+        let cap_ok = match spec {
+            None => false,
+            Some(sc) => if c2.os == "dos32" && c2.kind == "5.25in" { cap == 35 * 13 * 256 || ((typ == "woz1" || typ == "woz2") && cap == sc) } else { cap == sc } };
+        if !cap_ok { probs.push(format!("reload-capacity-differs ({} bytes, the kind stands for {:?})", cap, spec)); }
         // the disk kind
         let mut want = DiskKind::from_str(&c2.kind).map_err(|_| "kind-unparsable".to_string())?;
         if c2.os == "dos32" && want == a2kit::img::names::A2_DOS33_KIND { want = a2kit::img::names::A2_DOS32_KIND; }
